@@ -7,6 +7,7 @@ import AlgoVerif.Proofs.C06PRep
 -/
 namespace AlgoVerif.C06
 variable {V : Type}
+open BitString (xbit Small)
 
 open PT
 
@@ -20,7 +21,7 @@ def idx : PT V → Nat
 def stopAt : PT V → Nat → Key → Nat → Nat × Nat
   | leaf i _ _, pi, _, _ => (pi, i)
   | inner i bp l r, pi, key, d =>
-    if bp < d then (if kbit key (bp - 1) then stopAt r i key d else stopAt l i key d) else (pi, i)
+    if bp < d then (if xbit key (bp - 1) then stopAt r i key d else stopAt l i key d) else (pi, i)
 
 theorem stopAt_prev (T : PT V) (pi : Nat) (key : Key) (d : Nat) :
     (stopAt T pi key d).1 = pi ∨ (stopAt T pi key d).1 ∈ inners T := by
@@ -182,6 +183,87 @@ theorem length_ents_upd (T : PT V) (key : Key) (v : V) : (ents (upd T key v)).le
   have := congrArg List.length (keys_upd T key v)
   simpa [keys] using this
 
+/-- every Patricia node lies above its own thread: the leaf with index `i` is below the inner node `i` -/
+def SelfBelow : PT V → Prop
+  | leaf _ _ _ => True
+  | inner i _ l r => i ∈ leafIdx l ++ leafIdx r ∧ SelfBelow l ∧ SelfBelow r
+
+theorem selfBelow_ins {T : PT V} (key : Key) (v : V) (d i' : Nat) (hs : SelfBelow T) :
+    SelfBelow (ins T key v d i') := by
+  have hg : ∀ S : PT V, SelfBelow S → SelfBelow (graft S key v d i') := by
+    intro S hS
+    unfold graft
+    split
+    · exact ⟨by simp [leafIdx], hS, trivial⟩
+    · exact ⟨by simp [leafIdx], trivial, hS⟩
+  induction T with
+  | leaf i k v' => exact hg _ hs
+  | inner i bp l r ihl ihr =>
+    obtain ⟨hi, hl, hr⟩ := hs
+    simp only [ins]
+    split
+    · split
+      · refine ⟨?_, hl, ihr hr⟩
+        rw [List.mem_append, mem_leafIdx_ins]
+        rcases List.mem_append.mp hi with h | h
+        · exact .inl h
+        · exact .inr (.inr h)
+      · refine ⟨?_, ihl hl, hr⟩
+        rw [List.mem_append, mem_leafIdx_ins]
+        rcases List.mem_append.mp hi with h | h
+        · exact .inl (.inr h)
+        · exact .inr h
+    · exact hg _ ⟨hi, hl, hr⟩
+
+theorem selfBelow_upd {T : PT V} (key : Key) (v : V) (hs : SelfBelow T) : SelfBelow (upd T key v) := by
+  induction T with
+  | leaf => trivial
+  | inner i bp l r ihl ihr =>
+    obtain ⟨hi, hl, hr⟩ := hs
+    simp only [upd]
+    split
+    · exact ⟨by rw [leafIdx_upd]; exact hi, hl, ihr hr⟩
+    · exact ⟨by rw [leafIdx_upd]; exact hi, ihl hl, hr⟩
+
+theorem leafIdx_ins_perm (T : PT V) (key : Key) (v : V) (d i' : Nat) :
+    (leafIdx (ins T key v d i')).Perm (i' :: leafIdx T) := by
+  have hg : ∀ S : PT V, (leafIdx (graft S key v d i')).Perm (i' :: leafIdx S) := by
+    intro S
+    unfold graft
+    split
+    · simp only [leafIdx]
+      exact List.perm_append_comm
+    · simp [leafIdx]
+  induction T with
+  | leaf i k v' => exact hg _
+  | inner i bp l r ihl ihr =>
+    simp only [ins]
+    split
+    · split
+      · simp only [leafIdx]
+        exact (List.Perm.append_left _ ihr).trans List.perm_middle
+      · simp only [leafIdx]
+        exact List.Perm.append_right _ ihl
+    · exact hg _
+
+theorem inners_ins_perm (T : PT V) (key : Key) (v : V) (d i' : Nat) :
+    (inners (ins T key v d i')).Perm (i' :: inners T) := by
+  have hg : ∀ S : PT V, (inners (graft S key v d i')).Perm (i' :: inners S) := by
+    intro S
+    unfold graft
+    split <;> simp [inners]
+  induction T with
+  | leaf i k v' => exact hg _
+  | inner i bp l r ihl ihr =>
+    simp only [ins]
+    split
+    · split
+      · simp only [inners]
+        refine (List.Perm.cons _ ((List.Perm.append_left _ ihr).trans List.perm_middle)).trans (List.Perm.swap _ _ _)
+      · simp only [inners]
+        refine (List.Perm.cons _ (List.Perm.append_right _ ihl)).trans (List.Perm.swap _ _ _)
+    · exact hg _
+
 theorem keys_ne_nil (T : PT V) : keys T ≠ [] := by
   simp [keys, ents_ne_nil]
 
@@ -220,7 +302,7 @@ theorem putLoop_rep {t : Patricia V} (key : Key) (d : Nat) (T : PT V) :
       · simp only [hgt, hd, decide_true, Bool.and_self, if_true]
         rw [BitString.bit_ok_of_pos _ (by omega)]
         simp only [bind_ok]
-        cases hbit : kbit key (n.bp - 1)
+        cases hbit : xbit key (n.bp - 1)
         · simp only [Bool.false_eq_true, if_false]
           exact ihl n.bp n.left i n f hl hn rfl (by omega)
         · simp only [if_true]
@@ -298,14 +380,14 @@ theorem Rep.left_ne_right {t : Patricia V} {i bp : Nat} {l r : PT V} {pl pr : Op
 
 /-- the new node `_put` creates -/
 def newNode (key : Key) (v : V) (d : Nat) (next : Option Nat) (self : Nat) : PNode V :=
-  if kbit key (d - 1) then { bp := d, key := key, val := v, left := next, right := some self }
+  if xbit key (d - 1) then { bp := d, key := key, val := v, left := next, right := some self }
   else { bp := d, key := key, val := v, left := some self, right := next }
 
 theorem rep_ins {t t' : Patricia V} (key : Key) (v : V) (d : Nat) (hd : 1 ≤ d) (nw : PNode V) (T : PT V) :
     ∀ (b : Nat) (p : Option Nat) (pi : Nat) (pn : PNode V),
       Rep t b p T → t.nodes[pi]? = some pn → pn.bp = b → b < d →
       (pn.left = p ∨ (pn.right = p ∧ pn.left ≠ p)) →
-      Crit T → kbit key (d - 1) ≠ kbit (descend T key).2.1 (d - 1) →
+      Crit T → xbit key (d - 1) ≠ xbit (descend T key).2.1 (d - 1) →
       pi ∉ inners T → (inners T).Nodup →
       (∃ ppn, t.nodes[(stopAt T pi key d).1]? = some ppn ∧
         t' = linked t nw (stopAt T pi key d).1 ppn (some (stopAt T pi key d).2)) →
@@ -331,7 +413,7 @@ theorem rep_ins {t t' : Patricia V} (key : Key) (v : V) (d : Nat) (hd : 1 ≤ d)
     have hleaf : Rep t' d (some t.nodes.size) (.leaf t.nodes.size key v) := by
       refine ⟨rfl, nw, hnew, ?_, ?_, ?_⟩ <;> rw [hnw] <;> unfold newNode <;> split <;> simp
     unfold graft
-    cases hb : kbit key (d - 1)
+    cases hb : xbit key (d - 1)
     · simp only [Bool.false_eq_true, if_false]
       refine ⟨rfl, nw, hnew, ?_, by omega, ?_, ?_⟩
       · rw [hnw]; simp [newNode, hb]
@@ -388,7 +470,7 @@ theorem rep_ins {t t' : Patricia V} (key : Key) (v : V) (d : Nat) (hd : 1 ≤ d)
     · -- continue below node i
       have hne := Rep.left_ne_right hl hr hc
       obtain ⟨hbp1, hcl1, hcr1, _, hcl, hcr⟩ := hc
-      cases hbit : kbit key (n.bp - 1)
+      cases hbit : xbit key (n.bp - 1)
       · -- left
         simp only [stopAt, hlt, if_true, hbit, Bool.false_eq_true, if_false, ins, descend] at ht' hnw hdiff ⊢
         have hprev := stopAt_prev l i key d
